@@ -22,6 +22,7 @@ import (
 
 	"github.com/vektah/gqlparser/v2/ast"
 
+	"verifharness/internal/gen"
 	"verifharness/internal/impl"
 	"verifharness/internal/rng"
 )
@@ -76,8 +77,87 @@ func xh(s string) string { return "x" + hex.EncodeToString([]byte(s)) }
 type gv struct{ sx, ty string } // S-expression of a value and of its dynamic type ("" for nil)
 
 type vgen struct {
-	r *rng.R
-	s *ast.Schema
+	r    *rng.R
+	s    *ast.Schema
+	dist map[string]int // generator distribution (printed and written into the evidence)
+}
+
+func (g *vgen) count(k string) {
+	if g.dist != nil {
+		g.dist[k]++
+	}
+}
+
+// element types of the typed slices / typed maps that are generated on purpose (besides the ones
+// that arise when all items happen to share a dynamic type)
+var elemKinds = []string{"bool", "int", "int8", "int16", "int32", "int64", "uint", "uint8", "uint16", "uint32", "uint64",
+	"f32", "f64", "str", "jn", "I", "(sl I)", "(sl int)", "(sl str)", "(sl f64)", "(sl (sl int))", "(m I)", "(m int)", "(m str)", "(m f32)", "(m (sl int))", "(sl (m I))", "(sl (m f64))"}
+
+// typedValue builds a value whose dynamic type is exactly ty (for "I": anything, nil included).
+// keys: the map keys to use (declared field names of the input object met here, if any).
+func (g *vgen) typedValue(ty string, keys []string, d int) gv {
+	switch ty {
+	case "I":
+		return g.junk(d + 2)
+	case "bool":
+		return bo(g.r.Bool())
+	case "int", "int8", "int16", "int32", "int64":
+		return g.intOfKind(ty)
+	case "uint", "uint8", "uint16", "uint32", "uint64":
+		return g.uintOfKind(ty)
+	case "f32":
+		return fl("f32", rng.Pick(g.r, []string{"1.5", "2", "0", "-1", "1e+10", "NaN"}))
+	case "f64":
+		return fl("f64", rng.Pick(g.r, f64Texts))
+	case "str":
+		return st(rng.Pick(g.r, []string{"", "x", "RED", "12", "1.5", "b", "red", "__typename"}))
+	case "jn":
+		return jn(rng.Pick(g.r, jnTexts))
+	}
+	inner := strings.TrimSuffix(ty[strings.Index(ty, " ")+1:], ")")
+	if strings.HasPrefix(ty, "(sl ") {
+		n := g.r.Intn(3)
+		if d >= 4 {
+			n = g.r.Intn(2)
+		}
+		var sb strings.Builder
+		sb.WriteString("(sl " + inner)
+		for i := 0; i < n; i++ {
+			sb.WriteString(" " + g.typedValue(inner, keys, d+1).sx)
+		}
+		sb.WriteString(")")
+		return gv{sb.String(), ty}
+	}
+	// (m inner)
+	if len(keys) == 0 {
+		keys = []string{"a", "b", "c", "v"}
+	}
+	var sb strings.Builder
+	sb.WriteString("(m " + inner)
+	for _, k := range keys {
+		if g.r.Chance(2, 3) {
+			x := g.typedValue(inner, nil, d+1)
+			if x.sx == "nil" && inner != "I" {
+				continue
+			}
+			sb.WriteString(" (" + xh(k) + " " + x.sx + ")")
+		}
+	}
+	sb.WriteString(")")
+	return gv{sb.String(), ty}
+}
+
+func jnClass(t string) string {
+	if _, err := strconv.ParseInt(t, 10, 64); err == nil {
+		return "integer text"
+	}
+	if _, err := strconv.ParseFloat(t, 64); err == nil {
+		return "float text (not an integer)"
+	}
+	if _, err := strconv.ParseFloat(t, 64); err != nil && strings.Contains(err.Error(), "range") {
+		return "number out of float64 range"
+	}
+	return "not a number"
 }
 
 var intPool = []string{"0", "1", "-1", "7", "12", "2147483647", "2147483648", "-2147483649", "9223372036854775807", "-9223372036854775808"}
@@ -125,9 +205,13 @@ func (g *vgen) numberLike() gv {
 	case 8:
 		return fl("f32", rng.Pick(g.r, []string{"1.5", "2", "0", "-1", "1e+10", "NaN"}))
 	case 9, 10:
-		return jn(rng.Pick(g.r, jnTexts))
+		t := rng.Pick(g.r, jnTexts)
+		g.count("json.Number: " + jnClass(t))
+		return jn(t)
 	default:
-		return st(rng.Pick(g.r, numStrTexts))
+		t := rng.Pick(g.r, numStrTexts)
+		g.count("numeric string: " + jnClass(t))
+		return st(t)
 	}
 }
 
@@ -171,6 +255,7 @@ func (g *vgen) slice(items []gv) gv {
 		}
 		if same {
 			et = items[0].ty
+			g.count("typed slice (items share a type): []" + et)
 		}
 	} else if len(items) == 0 && g.r.Chance(1, 6) {
 		et = rng.Pick(g.r, []string{"int", "str", "jn", "(m I)", "(sl I)", "f64"})
@@ -195,6 +280,7 @@ func (g *vgen) mapOf(keys []string, vals []gv) gv {
 		}
 		if same {
 			et = vals[0].ty
+			g.count("typed map (entries share a type): map[string]" + et)
 		}
 	}
 	var sb strings.Builder
@@ -212,15 +298,29 @@ func (g *vgen) mapOf(keys []string, vals []gv) gv {
 }
 
 func (g *vgen) value(t *ast.Type, d int) gv {
+	g.count(fmt.Sprintf("values generated at depth %d", d))
 	if g.r.Chance(1, 14) {
+		g.count(fmt.Sprintf("defect at depth %d: value of a random kind", d))
 		return g.junk(d)
 	}
 	if (!t.NonNull && g.r.Chance(1, 8)) || (t.NonNull && g.r.Chance(1, 30)) {
+		if t.NonNull {
+			g.count(fmt.Sprintf("defect at depth %d: null at a non-null position", d))
+		} else {
+			g.count(fmt.Sprintf("null at a nullable position, depth %d", d))
+		}
 		return gv{"nil", ""}
 	}
 	if t.Elem != nil {
 		if g.r.Chance(1, 6) {
+			g.count(fmt.Sprintf("single value where a list is expected, depth %d", d))
 			return g.value(t.Elem, d) // a single value where a list is expected
+		}
+		if g.r.Chance(1, 7) {
+			// a typed slice of a deliberately chosen element type (fitting or not)
+			et := rng.Pick(g.r, elemKinds)
+			g.count("typed slice on purpose: []" + et)
+			return g.typedValue("(sl "+et+")", nil, d)
 		}
 		n := g.r.Intn(4)
 		if d >= 3 {
@@ -274,6 +374,22 @@ func (g *vgen) value(t *ast.Type, d int) gv {
 			return g.junk(d)
 		}
 	case ast.InputObject:
+		if g.r.Chance(1, 6) {
+			// a typed map of a deliberately chosen element type over the declared field names
+			et := rng.Pick(g.r, elemKinds)
+			g.count("typed map on purpose: map[string]" + et)
+			var names []string
+			for _, f := range def.Fields {
+				names = append(names, f.Name)
+			}
+			if g.r.Chance(1, 10) {
+				names = append(names, "__typename")
+			}
+			return g.typedValue("(m "+et+")", names, d)
+		}
+		if def.Name == "Rec" {
+			g.count(fmt.Sprintf("recursive input object Rec at depth %d", d))
+		}
 		var keys []string
 		var vals []gv
 		for _, f := range def.Fields {
@@ -290,14 +406,17 @@ func (g *vgen) value(t *ast.Type, d int) gv {
 			}
 		}
 		if g.r.Chance(1, 15) {
+			g.count(fmt.Sprintf("defect at depth %d: undeclared key", d))
 			keys = append(keys, "zzz")
 			vals = append(vals, g.junk(4))
 		}
 		if g.r.Chance(1, 15) {
+			g.count(fmt.Sprintf("key __typename at depth %d", d))
 			keys = append(keys, "__typename")
 			vals = append(vals, st("Inner"))
 		}
 		if g.r.Chance(1, 40) {
+			g.count(fmt.Sprintf("defect at depth %d: undeclared key", d))
 			keys = append(keys, "yyy", "xxx")
 			vals = append(vals, g.junk(4), g.junk(4))
 		}
@@ -317,7 +436,24 @@ func (g *vgen) junkScalar() gv {
 	}
 }
 
-func (g *vgen) varsMap(t *ast.Type) string {
+func (g *vgen) varsMap(t *ast.Type, multi bool) string {
+	if multi {
+		// operation ($a: Int = 1, $v: T, $z: [Int!])
+		var sb strings.Builder
+		sb.WriteString("(m I")
+		if g.r.Chance(1, 2) {
+			sb.WriteString(" (" + xh("a") + " " + g.value(&ast.Type{NamedType: "Int"}, 1).sx + ")")
+		}
+		if g.r.Chance(4, 5) {
+			sb.WriteString(" (" + xh("v") + " " + g.value(t, 0).sx + ")")
+		}
+		if g.r.Chance(1, 2) {
+			sb.WriteString(" (" + xh("z") + " " + g.value(&ast.Type{Elem: &ast.Type{NamedType: "Int", NonNull: true}}, 1).sx + ")")
+		}
+		sb.WriteString(")")
+		g.count("variables map for a 3-variable operation")
+		return sb.String()
+	}
 	switch {
 	case g.r.Chance(1, 25):
 		return "(m I)"
@@ -425,10 +561,45 @@ func sameVarsObs(goObs, model string) bool {
 
 var tWorker, tDriver, tSpec time.Duration
 
+type varSpec struct {
+	name string
+	typ  *ast.Type
+}
+
 type varsCase struct {
 	schema, doc string
-	typ         *ast.Type
+	opIndex     int
+	vars        []varSpec // the declared variables whose values are judged against the specification
 	vals        []string
+}
+
+func oneVar(t *ast.Type) []varSpec { return []varSpec{{"v", t}} }
+
+// replay: everything needed to run value j of the case again (`vcheck -prop C14 -replay file`)
+func (cs varsCase) replay(j int) map[string]any {
+	decl := make([]any, len(cs.vars))
+	for i, v := range cs.vars {
+		decl[i] = map[string]any{"name": v.name, "type": v.typ.String()}
+	}
+	return map[string]any{"op": "vars", "schema": cs.schema, "document": cs.doc, "op_index": cs.opIndex, "vars": cs.vals[j], "declared": decl}
+}
+
+// parseTypeString reads `[[Int!]]!`
+func parseTypeString(s string) *ast.Type {
+	nn := strings.HasSuffix(s, "!")
+	s = strings.TrimSuffix(s, "!")
+	if strings.HasPrefix(s, "[") && strings.HasSuffix(s, "]") {
+		return &ast.Type{Elem: parseTypeString(s[1 : len(s)-1]), NonNull: nn}
+	}
+	return &ast.Type{NamedType: s, NonNull: nn}
+}
+
+func (cs varsCase) declared() string {
+	parts := make([]string, len(cs.vars))
+	for i, v := range cs.vars {
+		parts[i] = "$" + v.name + ": " + v.typ.String()
+	}
+	return strings.Join(parts, ", ")
 }
 
 type varsStats struct {
@@ -438,16 +609,51 @@ type varsStats struct {
 	panicCount                                      map[string]int
 	specViol                                        map[string]int
 	specEx                                          map[string]string
+	outcome                                         map[string]int // what happened to the generated cases
+	strict                                          map[string]int // informational: strict GraphQL reading
+	judged                                          int
+	sampled                                         map[string]int
+	specReplay                                      map[string]map[string]any
+}
+
+func newVarsStats() *varsStats {
+	return &varsStats{errMsgs: map[string]int{}, panics: map[string]string{}, panicCount: map[string]int{}, specViol: map[string]int{}, specEx: map[string]string{},
+		outcome: map[string]int{}, strict: map[string]int{}, sampled: map[string]int{}, specReplay: map[string]map[string]any{}}
+}
+
+// reportVars files the specification findings of a run: Go panics and values that do not conform
+func reportVars(c *Ctx, st *varsStats) {
+	pk := make([]string, 0, len(st.panics))
+	for k := range st.panics {
+		pk = append(pk, k)
+	}
+	sort.Strings(pk)
+	for _, k := range pk {
+		rp := st.specReplay["panic:"+k]
+		c.Report("spec", "vars-panic:"+sanitizePanic(k), fmt.Sprintf("VariableValues panics (%s), %d cases, e.g. %s", k, st.panicCount[k], st.panics[k]), rp)
+	}
+	ek := make([]string, 0, len(st.specEx))
+	for k := range st.specEx {
+		ek = append(ek, k)
+	}
+	sort.Strings(ek)
+	for _, k := range ek {
+		what := "a returned value does not conform to its declared type"
+		if k == "accepted-although-not-coercible" {
+			what = "values were returned although the supplied value cannot conform"
+		}
+		for n := 0; n < st.specViol[k]; n++ { // the count of cases shows in the KNOWN-FINDING line
+			c.Report("spec", "vars-conforms:"+k, fmt.Sprintf("%s (%s, %d cases): %s", what, k, st.specViol[k], st.specEx[k]), st.specReplay[k])
+		}
+	}
 }
 
 func typeSexp(t *ast.Type) string { var s impl.Sx; s.Type(t); return s.String() }
 
-var leniencyNames = []string{"enumFold(R14b)", "typenameKey(R14c)", "numericStrings", "fractionalInt", "jsonNumberAsString", "flatNested(R14d)"}
-
 func (c *Ctx) runVarsCases(cases []varsCase, st *varsStats) {
 	reqs := make([]string, len(cases))
 	for i, cs := range cases {
-		reqs[i] = "varsgo " + impl.HexW([]byte(cs.schema)) + " " + impl.HexW([]byte(cs.doc)) + " 0 (list " + strings.Join(cs.vals, " ") + ")"
+		reqs[i] = "varsgo " + impl.HexW([]byte(cs.schema)) + " " + impl.HexW([]byte(cs.doc)) + " " + strconv.Itoa(cs.opIndex) + " (list " + strings.Join(cs.vals, " ") + ")"
 	}
 	t0 := time.Now()
 	replies := c.Worker.Map(reqs)
@@ -473,16 +679,18 @@ func (c *Ctx) runVarsCases(cases []varsCase, st *varsStats) {
 	t0 = time.Now()
 	model := c.Driver.Map(dreqs)
 	tDriver += time.Since(t0)
-	// direct spec checks: one `judge` request per case
+	// direct spec checks: one `judge` request per case.  Readings (bits: typenameKey single
+	// strictNumStr strictFracInt strictJsonNumber), results: the C14 specification, … with the
+	// R14c exception, then (informational) the strict GraphQL reading of the built-in scalars and
+	// its three classes one by one; supplied values: Coercible, … with the R14c exception.
 	var sreqs []string
 	type sref struct {
-		ci           int
+		ci, vi       int // case, variable
 		resIx, supIx []int
 	}
 	var srefs []sref
-	// strict, legacy, the six single leniencies, and "afterR14d" (all but flatNested)
-	const resBits = "000000,111111,100000,010000,001000,000100,000010,000001,111110"
-	const supBits = "000001,111111"
+	const resBits = "00000,10000,10111,10100,10010,10001"
+	const supBits = "01000,11000"
 	for k, i := range dix {
 		cs := cases[i]
 		mo := strings.Split(model[k], ";")
@@ -493,12 +701,14 @@ func (c *Ctx) runVarsCases(cases []varsCase, st *varsStats) {
 			continue
 		}
 		schemaSx := balanced(dreqs[k], strings.Index(dreqs[k], "(SCHEMA"))
-		var resVals, supVals []string
-		var resIx, supIx []int
+		resVals, supVals := make([][]string, len(cs.vars)), make([][]string, len(cs.vars))
+		resIx, supIx := make([][]int, len(cs.vars)), make([][]int, len(cs.vars))
 		for j := range mo {
 			st.cases++
 			c.Ev.Traces++
 			g := goObs[i][j]
+			// nontrivial: the variables map holds a container or the operation declares several variables
+			c.Ev.Case(cs.doc+"\x00"+cs.vals[j]+"\x00"+g, strings.Count(cs.vals[j], "(") > 3 || len(cs.vars) > 1)
 			switch {
 			case strings.HasPrefix(g, "OK"):
 				st.ok++
@@ -512,6 +722,15 @@ func (c *Ctx) runVarsCases(cases []varsCase, st *varsStats) {
 					}
 					st.errMsgs[msg]++
 				}
+				if len(f) > 2 {
+					pl := strings.Count(strings.Join(f[2:], " "), " ") + 1
+					st.outcome[fmt.Sprintf("error reported at path length %d", pl)]++
+					if pl >= 5 && st.sampled["err"] < 3 && len(cs.vals[j]) < 300 {
+						st.sampled["err"]++
+						b, _ := impl.UnhexW(f[1])
+						c.Ev.Sample(map[string]any{"kind": "error deep inside a value", "declared": cs.declared(), "variables": cs.vals[j], "message": string(b), "path": strings.Join(f[2:], " ")})
+					}
+				}
 			case strings.HasPrefix(g, "PANIC"):
 				st.panic_++
 				b, _ := impl.UnhexW(strings.TrimPrefix(g, "PANIC "))
@@ -520,88 +739,107 @@ func (c *Ctx) runVarsCases(cases []varsCase, st *varsStats) {
 				ex := "document `" + cs.doc + "`  vars " + cs.vals[j]
 				if old, ok := st.panics[key]; !ok || len(ex) < len(old) {
 					st.panics[key] = ex
+					st.specReplay["panic:"+key] = cs.replay(j)
 				}
 			}
 			if !sameVarsObs(g, mo[j]) {
 				st.mismatches++
-				c.Report("correspondence", "vars-model-differs", fmt.Sprintf("VariableValues and the Lean model disagree: type %s vars %s: go=%s model=%s", cs.typ.String(), cs.vals[j], g, mo[j]),
-					map[string]any{"op": "vars", "schema": cs.schema, "document": cs.doc, "vars": cs.vals[j], "go_observation": g, "model_observation": mo[j]})
+				rp := cs.replay(j)
+				rp["go_observation"], rp["model_observation"] = g, mo[j]
+				c.Report("correspondence", "vars-model-differs", fmt.Sprintf("VariableValues and the Lean model disagree: %s vars %s: go=%s model=%s", cs.declared(), cs.vals[j], g, mo[j]), rp)
 			}
 			if strings.HasPrefix(g, "OK ") {
 				if n, err := impl.ParseSexp(g[3:]); err == nil {
 					sup, _ := impl.ParseSexp(cs.vals[j])
-					if rv := n.MapEntry("v"); rv != nil {
-						resVals = append(resVals, rv.String())
-						resIx = append(resIx, j)
-						if sv := sup.MapEntry("v"); sv != nil {
-							supVals = append(supVals, sv.String())
-							supIx = append(supIx, j)
+					for vi, vs := range cs.vars {
+						rv := n.MapEntry(vs.name)
+						if rv == nil {
+							st.outcome["variable absent without default: nothing returned for it"]++
+							continue
+						}
+						resVals[vi] = append(resVals[vi], rv.String())
+						resIx[vi] = append(resIx[vi], j)
+						if sv := sup.MapEntry(vs.name); sv != nil {
+							supVals[vi] = append(supVals[vi], sv.String())
+							supIx[vi] = append(supIx[vi], j)
+							rs, ss := rv.String(), sv.String()
+							switch {
+							case rs == ss:
+								st.outcome["returned value identical to the supplied one"]++
+							default:
+								st.outcome["returned value differs from the supplied one (coerced)"]++
+							}
+							if strings.Count(rs, "(m I") > strings.Count(ss, "(m I") {
+								st.outcome["a typed map was copied into map[string]interface{}"]++
+								if st.sampled["copy"] < 3 && len(cs.vals[j]) < 300 {
+									st.sampled["copy"]++
+									c.Ev.Sample(map[string]any{"kind": "typed map copied", "declared": cs.declared(), "variables": cs.vals[j], "go": g})
+								}
+							}
+							if strings.Count(rs, "(sl ") > strings.Count(ss, "(sl ") {
+								st.outcome["a single value was wrapped into a list"]++
+							}
+						} else {
+							st.outcome["variable absent: its default returned"]++
 						}
 					}
 				}
 			}
 		}
-		if len(resVals) > 0 {
-			sreqs = append(sreqs, "judge "+resBits+" "+supBits+" (list "+schemaSx+" "+typeSexp(cs.typ)+" (list "+strings.Join(resVals, " ")+") (list "+strings.Join(supVals, " ")+"))")
-			srefs = append(srefs, sref{i, resIx, supIx})
+		for vi, vs := range cs.vars {
+			if len(resVals[vi]) > 0 {
+				sreqs = append(sreqs, "judge "+resBits+" "+supBits+" (list "+schemaSx+" "+typeSexp(vs.typ)+" (list "+strings.Join(resVals[vi], " ")+") (list "+strings.Join(supVals[vi], " ")+"))")
+				srefs = append(srefs, sref{i, vi, resIx[vi], supIx[vi]})
+			}
 		}
 	}
 	t0 = time.Now()
 	verdicts := c.Driver.Map(sreqs)
 	tSpec += time.Since(t0)
+	note := func(class, ex string, cs varsCase, vi int) {
+		st.specViol[class]++
+		if old, ok := st.specEx[class]; !ok || len(ex) < len(old) {
+			st.specEx[class] = ex
+			st.specReplay[class] = cs.replay(vi)
+		}
+	}
 	for k, v := range verdicts {
 		r := srefs[k]
 		groups := strings.Split(v, "|")
-		if len(groups) != 11 || len(groups[0]) != len(r.resIx) || len(groups[9]) != len(r.supIx) {
+		if len(groups) != 8 || len(groups[0]) != len(r.resIx) || len(groups[6]) != len(r.supIx) {
 			c.Report("correspondence", "judge-reply-shape", "judge reply: "+v[:min(200, len(v))], nil)
 			continue
 		}
 		cs := cases[r.ci]
+		vs := cs.vars[r.vi]
 		for x, vi := range r.resIx {
-			ex := fmt.Sprintf("$v: %s  vars %s → %s", cs.typ.String(), cs.vals[vi], goObs[r.ci][vi])
-			if groups[0][x] == '1' {
-				continue
+			ex := fmt.Sprintf("$%s: %s  vars %s → %s", vs.name, vs.typ.String(), cs.vals[vi], goObs[r.ci][vi])
+			st.judged++
+			switch {
+			case groups[0][x] == '1':
+			case groups[1][x] == '1':
+				note("typenameKey(R14c)", ex, cs, vi)
+			default:
+				note("result-does-not-conform", ex, cs, vi)
 			}
-			st.specViol["C14_conforms: returned value does not conform (strict)"]++
-			if groups[1][x] != '1' {
-				st.specViol["C14_conforms: returned value does not conform EVEN WITH every legacy leniency"]++
-				if _, ok := st.specEx["beyond-legacy-result"]; !ok {
-					st.specEx["beyond-legacy-result"] = ex
-				}
-			}
-			if groups[8][x] != '1' && groups[1][x] == '1' {
-				// conforms only when flatNested is granted to the RESULT: R14d (repaired by r14d.patch)
-				st.specViol["C14_conforms: returned value needs flatNested (does not conform with the five other leniencies)"]++
-				if old, ok := st.specEx["result-needs-flatNested(R14d)"]; !ok || len(ex) < len(old) {
-					st.specEx["result-needs-flatNested(R14d)"] = ex
-				}
-			}
-			any := false
-			for b := 0; b < 6; b++ {
-				if groups[2+b][x] == '1' {
-					any = true
-					name := "  … explained by the single leniency " + leniencyNames[b]
-					st.specViol[name]++
-					if old, ok := st.specEx[name]; !ok || len(ex) < len(old) {
-						st.specEx[name] = ex
+			// informational: the strict GraphQL reading of the built-in scalars
+			if groups[1][x] == '1' && groups[2][x] != '1' {
+				st.strict["returned values that conform to C14 but not to strict GraphQL input coercion"]++
+				for b, name := range []string{"numericStrings (a string that spells a number at Int/Float)", "fractionalInt (a non-integral float at Int)", "jsonNumberAsString (a json.Number at String/ID/enum)"} {
+					if groups[3+b][x] != '1' {
+						st.strict["  … class "+name]++
 					}
 				}
 			}
-			if !any && groups[1][x] == '1' {
-				st.specViol["  … explained only by a combination of leniencies"]++
-			}
 		}
 		for x, vi := range r.supIx {
-			ex := fmt.Sprintf("$v: %s  vars %s → %s", cs.typ.String(), cs.vals[vi], goObs[r.ci][vi])
-			if groups[9][x] == '1' {
-				continue
-			}
-			st.specViol["C14_rejects: values returned although the supplied value is not coercible (strict)"]++
-			if groups[10][x] != '1' {
-				st.specViol["C14_rejects: values returned although the supplied value is not coercible EVEN WITH every legacy leniency"]++
-				if _, ok := st.specEx["beyond-legacy-supplied"]; !ok {
-					st.specEx["beyond-legacy-supplied"] = ex
-				}
+			ex := fmt.Sprintf("$%s: %s  vars %s → %s", vs.name, vs.typ.String(), cs.vals[vi], goObs[r.ci][vi])
+			switch {
+			case groups[6][x] == '1':
+			case groups[7][x] == '1':
+				note("typenameKey(R14c)", ex, cs, vi)
+			default:
+				note("accepted-although-not-coercible", ex, cs, vi)
 			}
 		}
 	}
@@ -641,8 +879,8 @@ func checkVarsHalf(c *Ctx, report bool) {
 		c.Report("runtime", "vars-schema", err.Error(), nil)
 		return
 	}
-	g := &vgen{r: c.R, s: schema}
-	st := &varsStats{errMsgs: map[string]int{}, panics: map[string]string{}, panicCount: map[string]int{}, specViol: map[string]int{}, specEx: map[string]string{}}
+	g := &vgen{r: c.R, s: schema, dist: map[string]int{}}
+	st := newVarsStats()
 	perType := c.Pick(120, 900)
 	if v := os.Getenv("VARS_PER_TYPE"); v != "" {
 		perType, _ = strconv.Atoi(v)
@@ -654,32 +892,78 @@ func checkVarsHalf(c *Ctx, report bool) {
 		cases = cases[:0]
 	}
 	for i, t := range types {
-		mk := func(doc string, n int) {
+		mk := func(doc string, n int, multi bool) {
 			for n > 0 {
 				k := min(n, batch)
 				vals := make([]string, k)
 				for j := range vals {
-					vals[j] = g.varsMap(t)
+					vals[j] = g.varsMap(t, multi)
 				}
-				cases = append(cases, varsCase{sdl, doc, t, vals})
+				vars := oneVar(t)
+				if multi {
+					vars = []varSpec{{"a", &ast.Type{NamedType: "Int"}}, {"v", t}, {"z", &ast.Type{Elem: &ast.Type{NamedType: "Int", NonNull: true}}}}
+				}
+				cases = append(cases, varsCase{sdl, doc, 0, vars, vals})
 				n -= k
 			}
 		}
-		mk(fmt.Sprintf("query Q($v: %s) { v%d(x: $v) }", t.String(), i), perType)
+		mk(fmt.Sprintf("query Q($v: %s) { v%d(x: $v) }", t.String(), i), perType, false)
+		// several variables in one operation: $v between a variable with a default and a list variable
+		mk(fmt.Sprintf("query Q($a: Int = 1, $v: %s, $z: [Int!]) { v%d(x: $v) args(i: $a, l: $z) }", t.String(), i), perType/6, true)
 		// the same variable with default values: mostly absent / null
 		for d := 0; d < 3; d++ {
 			doc := fmt.Sprintf("query Q($v: %s = %s) { v%d(x: $v) }", t.String(), g.constLit(t, 0), i)
 			vals := []string{"(m I)", "(m I (" + xh("v") + " nil))", "(m I (" + xh("w") + " (b 1)))"}
 			for j := 0; j < perType/12; j++ {
-				vals = append(vals, g.varsMap(t))
+				vals = append(vals, g.varsMap(t, false))
 			}
-			cases = append(cases, varsCase{sdl, doc, t, vals})
+			cases = append(cases, varsCase{sdl, doc, 0, oneVar(t), vals})
 		}
 		if len(cases) >= 600 {
 			flush()
 		}
 	}
 	flush()
+	baseCases := st.cases
+	// second family: generated schemas and generated valid documents (the typed generators of
+	// internal/gen), every operation that declares variables, EVERY declared variable judged
+	nSchemas := c.Pick(150, 1500)
+	genOps := 0
+	for si := 0; si < nSchemas; si++ {
+		gs := gen.GenSchema(c.R, c.R.Intn(9))
+		gsdl := gs.SDL()
+		for di := 0; di < 6; di++ {
+			d := gen.GenDoc(c.R, gs, 1+c.R.Intn(5))
+			for oi, op := range d.Ops {
+				if len(op.Vars) == 0 {
+					continue
+				}
+				genOps++
+				vars := make([]varSpec, len(op.Vars))
+				for k, v := range op.Vars {
+					vars[k] = varSpec{v.Name, astType(v.Type)}
+					g.count(fmt.Sprintf("generated family: declared variable of list depth %d", listDepth(v.Type)))
+				}
+				g.count(fmt.Sprintf("generated family: operation with %d variables", min(len(op.Vars), 6)))
+				var vals []string
+				for j := 0; j < 12; j++ {
+					m, defect := gen.GenVars(c.R, gs, d.Text, op.Name, j%3 == 0)
+					cls := "conforming values"
+					if k := strings.Index(defect, "@"); k > 0 {
+						cls = "one defect: " + defect[:k]
+					}
+					g.count("generated family: variables map with " + cls)
+					vals = append(vals, impl.SexpGoVal(m))
+				}
+				cases = append(cases, varsCase{gsdl, d.Text, oi, vars, vals})
+			}
+		}
+		if len(cases) >= 300 {
+			flush()
+		}
+	}
+	flush()
+	fmt.Printf("generated family: %d schemas, %d operations with variables, %d triples\n", nSchemas, genOps, st.cases-baseCases)
 	fmt.Printf("X-vars: %d types, %d triples: go OK %d, ERR %d, PANIC %d; invalid documents skipped %d; MISMATCHES %d\n",
 		len(types), st.cases, st.ok, st.err, st.panic_, st.invalidDocs, st.mismatches)
 	fmt.Printf("time: go workers %v, driver (vars) %v, driver (spec verdicts) %v\n", tWorker.Round(time.Millisecond), tDriver.Round(time.Millisecond), tSpec.Round(time.Millisecond))
@@ -698,43 +982,111 @@ func checkVarsHalf(c *Ctx, report bool) {
 	for _, l := range strings.Split(probe, "\t") {
 		fmt.Println("  ", l)
 	}
-	printCounts("direct specification checks on the values Go returned (counts of triples):", st.specViol)
+	printCounts("generator distribution (values generated, by feature):", g.dist)
+	printCounts("what happened to the generated cases:", st.outcome)
+	fmt.Printf("direct specification checks (Conforms on every returned value, Coercible on its supplied value): %d returned values judged\n", st.judged)
+	printCounts("  specification violations (counts of triples):", st.specViol)
 	ek := make([]string, 0, len(st.specEx))
 	for k := range st.specEx {
 		ek = append(ek, k)
 	}
 	sort.Strings(ek)
 	for _, k := range ek {
-		fmt.Printf("  example [%s]: %s\n", strings.TrimSpace(k), st.specEx[k])
+		fmt.Printf("  example [%s]: %s\n", k, st.specEx[k])
 	}
+	printCounts("informational (NOT part of C14, never reported): strict GraphQL input coercion of built-in scalars", st.strict)
 	c.Ev.Evals = st.cases
-	c.Ev.Rule = "vartypes: 12 base types x list depth <= 3 x every non-null pattern; type-directed values with injected defects"
-	if !report {
-		return
-	}
-	for _, k := range pk {
-		sig := "vars-panic:other"
-		switch {
-		case strings.Contains(k, "reflect.Value.Type on zero Value"):
-			sig = "vars-panic:null-item-meets-list-type(R14a)"
-		case strings.Contains(k, "SetMapIndex"):
-			sig = "vars-panic:typed-map-setmapindex-not-assignable"
-		}
-		c.Report("spec", sig, fmt.Sprintf("VariableValues panics (%s), %d cases, e.g. %s", k, st.panicCount[k], st.panics[k]),
-			map[string]any{"op": "vars", "schema": sdl, "example": st.panics[k], "panic": k})
-	}
 	for _, k := range ek {
-		name := strings.TrimSpace(k)
-		if i := strings.Index(name, "leniency "); i >= 0 {
-			name = name[i+9:]
-		}
-		c.Report("spec", "vars-conforms:"+name, fmt.Sprintf("a returned value does not conform to its declared type (%s): %s", strings.TrimSpace(k), st.specEx[k]),
-			map[string]any{"op": "vars", "schema": sdl, "example": st.specEx[k]})
+		c.Ev.Sample(map[string]any{"kind": "specification class " + k, "example": st.specEx[k]})
+	}
+	c.Ev.Assume = append(c.Ev.Assume,
+		"domain of the variables: nil, bool, every int/uint kind, float32/64, json.Number, string, slices and string-keyed maps of ANY element type, nested; pointers, structs, arrays, maps with non-string key types and named types other than json.Number are outside (Go-only probes printed by the check: pointers and non-string keys can still panic)",
+		"theorem hypotheses about the schema are facts of loaded schemas (C07): InputsClosed, InputFieldsNodup, EnumNamesPlain; about the operation: variable names are unique (validation), every variable type exists",
+		"wfFieldsB is the representation invariant of the Lean value type (nil interface only inside interface{} containers, map keys unique), not a restriction on Go values",
+		"built-in scalars are judged by the compatible kind table (C14) of GqlModel/Vars/Spec.lean; the strict GraphQL reading is counted as information only")
+	c.Ev.Rule = "nontrivial = the variables map holds a container value or the operation declares several variables. vartypes: 12 base types (5 built-in scalars, custom scalar, enum, 5 input objects incl. recursive) x list depth <= 3 x every non-null pattern; type-directed values (typed slices/maps of 28 element types, json.Number forms) with defects injected at every depth; 1- and 3-variable operations, defaults"
+	c.Ev.Extra["generator_distribution"] = g.dist
+	c.Ev.Extra["case_outcomes"] = st.outcome
+	c.Ev.Extra["go_outcomes"] = map[string]int{"ok": st.ok, "err": st.err, "panic": st.panic_}
+	c.Ev.Extra["returned_values_judged"] = st.judged
+	c.Ev.Extra["strict_graphql_reading_informational"] = st.strict
+	c.Ev.Extra["error_messages"] = st.errMsgs
+	if report {
+		reportVars(c, st)
 	}
 }
 
+func astType(t *gen.TypeRef) *ast.Type {
+	if t.Elem != nil {
+		return &ast.Type{Elem: astType(t.Elem), NonNull: t.NonNull}
+	}
+	return &ast.Type{NamedType: t.Name, NonNull: t.NonNull}
+}
+
+func listDepth(t *gen.TypeRef) int {
+	n := 0
+	for t.Elem != nil {
+		n++
+		t = t.Elem
+	}
+	return n
+}
+
+func sanitizePanic(msg string) string {
+	switch {
+	case strings.Contains(msg, "reflect.Value.Type on zero Value"):
+		return "type-on-zero-value"
+	case strings.Contains(msg, "SetMapIndex"):
+		return "typed-map-setmapindex-not-assignable"
+	}
+	return "other"
+}
+
+// replayVars re-runs a stored C14 case (correspondence and specification verdicts) on the current tree
+func replayVars(c *Ctx, rep map[string]any) {
+	str := func(k string) string { s, _ := rep[k].(string); return s }
+	cs := varsCase{schema: str("schema"), doc: str("document"), vals: []string{str("vars")}}
+	if f, ok := rep["op_index"].(float64); ok {
+		cs.opIndex = int(f)
+	}
+	if ds, ok := rep["declared"].([]any); ok {
+		for _, d := range ds {
+			if m, ok := d.(map[string]any); ok {
+				n, _ := m["name"].(string)
+				t, _ := m["type"].(string)
+				cs.vars = append(cs.vars, varSpec{n, parseTypeString(t)})
+			}
+		}
+	}
+	if cs.schema == "" || cs.doc == "" || cs.vals[0] == "" {
+		fmt.Println("replay file has no schema/document/vars")
+		c.ReportNoInput("runtime", "replay-unusable", "replay file has no schema/document/vars", nil)
+		return
+	}
+	st := newVarsStats()
+	c.runVarsCases([]varsCase{cs}, st)
+	fmt.Printf("replayed: go OK %d, ERR %d, PANIC %d, model mismatches %d, specification classes %v\n", st.ok, st.err, st.panic_, st.mismatches, st.specViol)
+	reportVars(c, st)
+}
+
 func init() {
-	Checks["X-vars"] = func(c *Ctx) { runVarsCheck(c, true, true, false) }
+	Replayers["C14"] = replayVars
+	Checks["X-vars"] = func(c *Ctx) {
+		// a scratch check has no GqlProofs/Props file: drop the pseudo-violation RunProofs files for that,
+		// so that the exit status tells whether model and code agree
+		c.mu.Lock()
+		if v, ok := c.viol["no-props-file"]; ok && v.NoFail {
+			delete(c.viol, "no-props-file")
+			for i, s := range c.violOrder {
+				if s == "no-props-file" {
+					c.violOrder = append(c.violOrder[:i], c.violOrder[i+1:]...)
+					break
+				}
+			}
+		}
+		c.mu.Unlock()
+		runVarsCheck(c, true, true, false)
+	}
 	Checks["C14"] = func(c *Ctx) { runVarsCheck(c, true, false, true) }
 	Checks["C15"] = func(c *Ctx) { runVarsCheck(c, false, true, true) }
 }
